@@ -8,6 +8,8 @@
             verb      0..3  (normal, -v, -vv, -vvv),
             line      the command line (see Lines: which command it selects, with which arguments / options, or that
                       resolution fails),
+            io        "ok" | "fail": the application's I/O factory raises (the report then goes to the preliminary I/O the
+                      application created for itself - the console),
             pre       pre-resolve listener: "none" | "pass" | "raise",
             listeners Seq of pre-handle listeners, each [b |-> "pass"] | [b |-> "handle", v |-> value] | [b |-> "raise", k |-> kind],
             outcome   of the selected command's handler: [t |-> "ret", v |-> value] | [t |-> "raise", k |-> kind],
@@ -108,13 +110,14 @@ MinOf(S) == CHOOSE x \in S : \A y \in S : x <= y
 MaxOf(S) == CHOOSE x \in S : \A y \in S : x >= y
 ListenerSrc(i) == IF i = 1 THEN "l1" ELSE IF i = 2 THEN "l2" ELSE "l3"
 Eff(env) ==
-  IF env.pre = "raise" THEN Raise("Foreign", "pre")
+  IF env.io = "fail" THEN Raise("Foreign", "io")
+  ELSE IF env.pre = "raise" THEN Raise("Foreign", "pre")
   ELSE IF ~LineOK(env) THEN Raise("Library", "resolve")
   ELSE IF Raisers(env) # {} THEN Raise(env.listeners[MinOf(Raisers(env))].k, ListenerSrc(MinOf(Raisers(env))))
   ELSE IF Handlers(env) # {} THEN [Ret(env.listeners[MaxOf(Handlers(env))].v) EXCEPT !.src = "listener"]
   ELSE IF env.outcome.t = "ret" THEN [Ret(env.outcome.v) EXCEPT !.src = "handler"]
   ELSE Raise(env.outcome.k, "handler")
-HandlerRuns(env) == env.pre # "raise" /\ LineOK(env) /\ Raisers(env) = {} /\ Handlers(env) = {}
+HandlerRuns(env) == env.io # "fail" /\ env.pre # "raise" /\ LineOK(env) /\ Raisers(env) = {} /\ Handlers(env) = {}
 \* the effective outcome is an Exception (as opposed to KeyboardInterrupt): raised, or a result that is no status
 Fails(env) == LET e == Eff(env) IN (e.t = "raise" /\ ~IsInterrupt(e.k)) \/ (e.t = "ret" /\ ~Falsy(e.v) /\ NotStatus(e.v))
 
@@ -141,7 +144,9 @@ Start(env) == [env |-> env, phase |-> "start", li |-> 1, handled |-> FALSE, hsta
 
 Step(st) ==
   LET env == st.env IN
-  CASE st.phase = "start" -> [st EXCEPT !.phase = "ioReady"]                                          \* CreateIO
+  CASE st.phase = "start" ->                                                                           \* CreateIO
+         IF env.io = "fail" THEN [st EXCEPT !.phase = "caught", !.exc = Exc("Foreign", "io")]      \* reported on the preliminary I/O
+         ELSE [st EXCEPT !.phase = "ioReady"]
     [] st.phase = "ioReady" ->                                                                         \* PreResolve
          IF env.pre = "raise" THEN [st EXCEPT !.phase = "caught", !.exc = Exc("Foreign", "pre")]
          ELSE [st EXCEPT !.phase = "preResolved"]
